@@ -1,10 +1,17 @@
 #!/usr/bin/env python3
-"""tools/seed_matrix.py — apply every seeded change to /repo in turn, run the quick check of its property,
-undo it, and record the outcome in seeded/<id>/meta.json (detected_by / obsolete).  Never leaves /repo dirty."""
+"""tools/seed_matrix.py — apply every seeded change in turn to a SCRATCH COPY of /repo (tools/scratch.py), run the
+quick check of its property from a scratch copy of /verif against it, undo it, and record the outcome in
+seeded/<id>/meta.json (detected_by / obsolete).  /repo, /verif/evidence and /verif/replay are never touched."""
 import json, os, subprocess, sys
+sys.path.insert(0, os.path.dirname(os.path.abspath(__file__)))
+import scratch
 os.chdir("/verif")
 only = sys.argv[1:]
 rows = []
+_cm = scratch.copies("seeds")
+VDIR, RDIR, ENV = _cm.__enter__()
+import atexit
+atexit.register(lambda: _cm.__exit__(None, None, None))
 for d in sorted(os.listdir("seeded")):
     if only and d not in only:
         continue
@@ -13,23 +20,18 @@ for d in sorted(os.listdir("seeded")):
         continue
     m = json.load(open(mp))
     pid = m.get("property", d[:3])
-    if subprocess.run(["git", "-C", "/repo", "status", "--porcelain"], capture_output=True, text=True).stdout.strip():
-        print("repo not clean"); sys.exit(2)
+    if subprocess.run(["git", "-C", RDIR, "status", "--porcelain"], capture_output=True, text=True).stdout.strip():
+        print("scratch repo not clean"); sys.exit(2)
     patch = os.path.abspath(os.path.join("seeded", d, "patch.diff"))
-    if subprocess.run(["git", "-C", "/repo", "apply", "--check", patch], capture_output=True).returncode != 0:
+    if subprocess.run(["git", "-C", RDIR, "apply", "--check", patch], capture_output=True).returncode != 0:
         m["status_on_current_tree"] = "obsolete: the patch no longer applies to the repaired tree"
         json.dump(m, open(mp, "w"), indent=1)
         rows.append((d, pid, "does-not-apply")); continue
-    subprocess.run(["git", "-C", "/repo", "apply", patch], check=True)
-    evp = os.path.join("evidence", pid + ".json")
-    saved = open(evp, "rb").read() if os.path.exists(evp) else None   # evidence must describe the unchanged tree
+    subprocess.run(["git", "-C", RDIR, "apply", patch], check=True)
     try:
-        r = subprocess.run(["./check", pid, "quick"], capture_output=True, text=True)
+        r = subprocess.run([os.path.join(VDIR, "check"), pid, "quick"], capture_output=True, text=True, env=ENV)
     finally:
-        subprocess.run(["git", "-C", "/repo", "checkout", "--", "."], check=True)
-        subprocess.run(["git", "-C", "/repo", "clean", "-fdq"], check=False)
-        if saved is not None:
-            open(evp, "wb").write(saved)
+        scratch.restore(RDIR)
     v = [l for l in r.stdout.split("\n") if l.startswith("VIOLATION")]
     if r.returncode == 1 and v:
         kind = "no-failing-input-found" if all(l.endswith("no-failing-input-found") for l in v) else "failing input"
